@@ -471,8 +471,13 @@ fn check_type_relation<T: TypeLookup>(
                 fields: fields2,
             },
         ) => {
-            // Names must match if both have names
-            if name1.is_some() && name2.is_some() && name1 != name2 {
+            // A named pattern admits only tuples of that name, so only a partial of the same
+            // name is assignable to it; an unnamed partial still overlaps it.
+            let names_ok = match mode {
+                UnionMode::All => name2.is_none() || name1 == name2,
+                UnionMode::Any => name1.is_none() || name2.is_none() || name1 == name2,
+            };
+            if !names_ok {
                 return false;
             }
 
